@@ -88,7 +88,8 @@ def pick_amount(ctx, around=None):
     if x < 0.40:
         return 0
     if x < 0.46 and ctx.p.get("big", 0.1) > 0:
-        return BIG + r.randrange(0, 1000)
+        # beyond one machine word; often an exact multiple of 2^64 (low word zero) or of 2^32
+        return r.choice([BIG + r.randrange(0, 1000), BIG, 2 * BIG, 3 * BIG, BIG * BIG, 2 ** 63, 2 ** 32, 5 * 2 ** 32])
     if x < 0.85:
         return r.randrange(1, 20)
     return r.randrange(1, 120)
@@ -386,7 +387,7 @@ def gen_case(seed, index, profile=None):
             elif x < 0.3:
                 v = 0
             elif x < 0.35:
-                v = BIG + rng.randrange(0, 100)
+                v = rng.choice([BIG + rng.randrange(0, 100), BIG, 2 * BIG, BIG + rng.randrange(0, 100)])
             elif x < 0.45:
                 continue      # absent entry
             elif p.get("small_values"):
